@@ -44,6 +44,15 @@ struct E : nitro::lang::tuple_operators<E>
     auto as_tuple() { return std::tie(b, c); }
 };
 
+// a mix-in type with a smart-pointer member: its operators are those of the member tuple (which compares the pointers),
+// its hash is that of the member tuple (which hashes the pointee)
+struct MP : nitro::lang::tuple_operators<MP>
+{
+    int a;
+    std::shared_ptr<std::string> p;
+    auto as_tuple() { return std::tie(a, p); }
+};
+
 static std::string hx(std::size_t h)
 {
     std::ostringstream o;
@@ -342,6 +351,24 @@ static std::string handle(const std::vector<std::string>& f)
             };
             auto x = mk(tx, lx);
             auto y = mk(ty, ly);
+            // the same two values as members of a mix-in type, in separate allocations and sharing one: the six
+            // operators are those of the member tuple, exactly one of <, ==, > holds, equal values hash equal
+            for (int shared = 0; shared < 2; shared++)
+            {
+                MP mx, my;
+                mx.a = std::get<0>(x);
+                my.a = std::get<0>(y);
+                mx.p = std::get<1>(x);
+                my.p = (shared && *std::get<1>(x) == *std::get<1>(y)) ? mx.p : std::get<1>(y);
+                auto tx2 = std::tie(mx.a, mx.p), ty2 = std::tie(my.a, my.p);
+                bool agree = (mx == my) == (tx2 == ty2) && (mx != my) == (tx2 != ty2) && (mx < my) == (tx2 < ty2) &&
+                             (mx > my) == (tx2 > ty2) && (mx <= my) == (tx2 <= ty2) && (mx >= my) == (tx2 >= ty2);
+                int holds = (mx < my ? 1 : 0) + (mx == my ? 1 : 0) + (mx > my ? 1 : 0);
+                if (!agree || holds != 1)
+                    return "lh=" + lx.str() + "/" + ly.str() + " MIXIN-WITH-POINTER-MEMBER:operators-disagree-with-the-member-tuple";
+                if (mx == my && hash(mx) != hash(my))
+                    return "lh=" + lx.str() + "/" + ly.str() + " MIXIN-WITH-POINTER-MEMBER:equal-values-hash-differently";
+            }
             return only_hash(x, y, lx, ly);
         }
         if (name == "PU") // pair<unique_ptr<int>, int>
